@@ -1,0 +1,73 @@
+//go:build verif
+
+package cli
+
+import (
+	"io/fs"
+	"os"
+	"path/filepath"
+	"strings"
+
+	"github.com/roddhjav/apparmor.d/pkg/paths"
+	"github.com/roddhjav/apparmor.d/pkg/prebuild"
+	"github.com/roddhjav/apparmor.d/pkg/prebuild/builder"
+	"github.com/roddhjav/apparmor.d/pkg/prebuild/prepare"
+)
+
+// verifTap records intermediate states of the build for external monitors.
+// It only observes: nothing it does is read back by the build.
+// It is inert unless VERIF_TAP_DIR is set.
+func verifTap(stage string, file *paths.Path, text string) {
+	dir := os.Getenv("VERIF_TAP_DIR")
+	if dir == "" {
+		return
+	}
+	switch stage {
+	case "tasks":
+		var b strings.Builder
+		for _, t := range prepare.Prepares {
+			b.WriteString("prepare " + t.Name() + "\n")
+		}
+		for _, t := range builder.Builds {
+			b.WriteString("build " + t.Name() + "\n")
+		}
+		_ = os.MkdirAll(dir, 0o755)
+		_ = os.WriteFile(filepath.Join(dir, "tasks.txt"), []byte(b.String()), 0o644)
+	case "prepared":
+		for _, name := range []string{"apparmor.d", "systemd", "share"} {
+			src := prebuild.Root.Join(name).String()
+			dst := filepath.Join(dir, "prepared", name)
+			_ = filepath.WalkDir(src, func(p string, d fs.DirEntry, err error) error {
+				if err != nil {
+					return nil
+				}
+				rel, err := filepath.Rel(src, p)
+				if err != nil {
+					return nil
+				}
+				out := filepath.Join(dst, rel)
+				switch {
+				case d.IsDir():
+					_ = os.MkdirAll(out, 0o755)
+				case d.Type()&fs.ModeSymlink != 0:
+					if target, err := os.Readlink(p); err == nil {
+						_ = os.Symlink(target, out)
+					}
+				default:
+					if data, err := os.ReadFile(p); err == nil {
+						_ = os.WriteFile(out, data, 0o644)
+					}
+				}
+				return nil
+			})
+		}
+	case "built", "expanded":
+		rel, err := file.RelFrom(prebuild.Root)
+		if err != nil {
+			return
+		}
+		dst := filepath.Join(dir, stage, rel.String())
+		_ = os.MkdirAll(filepath.Dir(dst), 0o755)
+		_ = os.WriteFile(dst, []byte(text), 0o644)
+	}
+}
